@@ -412,6 +412,16 @@ class Checker:
         real = real_cells(out)
         succ = match_result(real, variants, tol)
         if self.mode == 'C12':
+            if succ is None and op[0] == 'uniform':
+                # the statement only fixes the outcome of uniform refinement: every refinable cell ends at the former
+                # maximum depth and cells already there stay as they were (how a cell is cut is C02's business)
+                D = max(c.depth for c in cells)
+                keep = [c for c in cells if c.fixed or c.depth == D]
+                ok = all(rc[1] or rc[2] == D for rc in real) and \
+                    all(any(cell_matches(rc, c, tol) for rc in real) for c in keep)
+                if ok:
+                    res.counters['uniform-accepted-by-postcondition'] += 1
+                    return None
             if succ is None:
                 exp = [[describe_cells(v) for v in vs][0] for vs in variants]
                 res.violation(op[0] + '-exact', self.case(hist), at, exp,
